@@ -63,6 +63,14 @@ claimed = {
    text="A scripted adversarial server (harness code speaking the protocol correctly except where told otherwise) faces each client kind - Streamable with JSON answers, with SSE answers, its GET stream, the legacy SSE client, the stdio client (variant by run index). The first garbage item is enumerated from a 24-item catalogue (raw bytes, non-JSON, scalars, frames of the wrong kind, unknown ids, ids of type object/float/string/null, missing jsonrpc, result+error, blank lines, comments, unknown event types, 64 KiB-1 / 64 KiB+ / 1 MiB frames, a second endpoint event, truncated JSON, deep nesting, BOM, CRLF), 0-2 more are drawn; the tape picks whether they come before, instead of or after the valid answer of one call and whether they also go to the background channel, while another call is pending. Oracle: no panic in any client goroutine, no spinning goroutine (livelock detector: a library task taking 3000 consecutive steps at <=6 sites without simulated time passing), the affected call returns (error or its answer), the pending call and two later calls return their own answers, a well-formed notification sent afterwards reaches its handler exactly once, Close returns.",
    note="A response whose id differs only in JSON type from a pending request's id may be taken for its answer (leniency, not a survival question).",
    tech=TECH+"scripted adversarial server, panic/livelock/liveness oracle"),
+ "C16": dict(cat="exploration", ref="DESIGN.md §6 C16",
+   text="(a) 1-3 raw peers send initialize with version strings {both supported ones, near misses, a newer date, empty, 'latest', trailing space, full-width digits, '1', 5000 digits} to every server kind/mode (by run index) with every subset of {prompt, resource} registered and, optionally, registrations racing the handshake (stamped on the run's event sequence): answer version = requested if supported else the latest, never an unsupported one; configured name/version; tools capability always; prompts/resources present if registered before the request began, absent if not registered at any instant of it. (b) real clients of all three kinds run tape-generated histories over {one of the six request operations, Initialize, Close, GetState} where the first handshake is sabotaged at each step (refused, reset on initialize, HTTP 500, JSON-RPC error answer, failure of the initialized notification, stall until the deadline; for stdio kill before / after the request): a reference state machine predicts GetState after every step; operations on a non-initialized client must fail with a not-initialized error and the network record / stdin pipe must show no traffic; a second handshake is refused without traffic.",
+   note="Operations = the six request operations of the Connector interface. Initialize after Close is only checked for state/outcome consistency (the statement does not say whether it must work).",
+   tech=TECH+"reference state machine for the client, negotiation rule for the server, sabotaged handshakes"),
+ "C19": dict(cat="exploration", ref="DESIGN.md §6 C19",
+   text="All 16 combinations of {static headers, before-request function, custom request handler, custom path} x {Streamable, legacy SSE} are enumerated from the run index; each run drives a history that makes the real client emit every request kind it has - initialize, initialized notification, a tools/call whose handler makes the server issue roots/list on the background stream (so the client posts an answer), roots-changed notification, the GET stream / legacy connect, session DELETE - with a per-operation context value; in 30 % of the runs with a before-request function it fails for one chosen operation. Oracle on the simulated network's record: every request goes to the configured path, through the configured handler, carries every static header value and the issued session id, passed the before-request function exactly once with the calling operation's context value (the handshake's for the stream and the answer to the server request); when the function fails nothing reaches the network and the operation returns that error.",
+   note="A custom http.Client (named in the quantifier) is not varied: the simulated network is installed as http.DefaultTransport.",
+   tech=TECH+"configuration enumeration over a history that reaches every request-building path, judged on the network record"),
 }
 NA = {
  "C18": "pure relation between two translators (schema generator vs encoding/json) over types and values: no schedule, clock, fault or interleaving for a simulator to decide (DESIGN.md §7)",
